@@ -951,6 +951,10 @@ namespace avel {
 
     [[nodiscard]]
     AVEL_FINL div_type<vec8x64u> div(vec8x64u x, vec8x64u y) {
+        // The result of a lane with a zero denominator is unspecified, but
+        // dividing it must not trap and take the other lanes down with it
+        y = blend(y == vec8x64u{0}, vec8x64u{1}, y);
+
         //TODO: Implement alternative solution
         auto n0 = extract<0>(x);
         auto n1 = extract<1>(x);
